@@ -114,25 +114,29 @@ def lcm(a, b):
     return a * b // gcd(a, b)
 
 
-def discounted_cert(mdp, gamma, pick, E, den, eps_int, bound_num):
-    """Optimal values and the value of `pick` as integers over per-component denominators."""
+def discounted_cert(mdp, gamma, pick, E, den, eps_int, bound_num, extra_pol=None):
+    """Optimal values and the value of `pick` (and of `extra_pol`) as integers over per-component
+    denominators."""
     vs, _ = T.frac_optimal(mdp, gamma)
     vp = T.frac_policy_value(mdp, pick, gamma)
+    ve = T.frac_policy_value(mdp, extra_pol, gamma) if extra_pol is not None else vp
     comp = components(mdp)
     cd_of = {}
     for s in range(mdp["ns"]):
         c = comp[s]
-        d = lcm((vs[s] * 2 ** E).denominator, (vp[s] * 2 ** E).denominator)
+        d = lcm(lcm((vs[s] * 2 ** E).denominator, (vp[s] * 2 ** E).denominator),
+                (ve[s] * 2 ** E).denominator)
         cd_of[c] = lcm(cd_of.get(c, 1), d)
     cd = [cd_of[comp[s]] for s in range(mdp["ns"])]
     vsn = [int(vs[s] * 2 ** E * cd[s]) for s in range(mdp["ns"])]
     vpn = [int(vp[s] * 2 ** E * cd[s]) for s in range(mdp["ns"])]
+    een = [int(ve[s] * 2 ** E * cd[s]) for s in range(mdp["ns"])]
     rmax = max(abs(r) for sa in mdp["rew"] for row in sa for r in row) * 2 ** (E - mdp["rexp"])
-    big = max([abs(x) for x in vsn + vpn] + [rmax * max(cd)]) * den * 4
-    big = max(big, eps_int * max(cd) * bound_num * 2)
+    big = max([abs(x) for x in vsn + vpn + een] + [rmax * max(cd)]) * den * 4
+    big = max(big, eps_int * max(cd) * bound_num * 2 * max(gamma.denominator, 1))
     if big >= LIMIT:
         return None
-    return {"kind": "discounted", "vsn": vsn, "vpn": vpn, "cd": cd}
+    return {"kind": "discounted", "vsn": vsn, "vpn": vpn, "een": een, "cd": cd, "evalat": 0}
 
 
 def gain_solve(mdp, pol):
@@ -259,6 +263,18 @@ def run_job(job):
                      "error": error, "start_policy": start_policy, "out_len": out_len,
                      "injected": inj is not None})
     _verif.clear_sinks()
+    if job.get("twin"):
+        # a second solver built with the same seed must draw the same permutation sequence
+        rec2 = Recorder()
+        _verif.add_sink(rec2)
+        try:
+            twin = build_solver(job)
+            for k in job["calls"]:
+                twin.solve(max_iterations=k)
+        except Exception:
+            pass
+        _verif.clear_sinks()
+        raws[0]["twin_perms"] = [e.get("perm") for e in rec2.events if e["e"] == "sweep"]
     return raws
 
 
@@ -368,6 +384,10 @@ def project(job, raw):
                                  "old": o, "new": n, "c": c or 0,
                                  "pick": [s[0] if s else 1 for s in psets]})
         tr_events.append(rec)
+    if raw.get("twin_perms") is not None:
+        sweeps = [r for r in tr_events if r["e"] == "sweep"]
+        for r, p2 in zip(sweeps, raw["twin_perms"]):
+            r["permref"] = [x + 1 for x in p2] if p2 is not None else list(range(1, ns + 1))
     sok, start = vec(raw["start"])
     v0 = [x << (E - mdp["v0exp"]) for x in mdp["v0"]]
     m = {"ns": ns, "na": mdp["na"], "ne": mdp["ne"],
@@ -392,14 +412,30 @@ def project(job, raw):
     else:
         trace["startpol"] = [1] * ns
         trace["startpolok"] = True
+    if kind == "PI":
+        trace["maxeval"] = job.get("max_eval_iter", 100)
+        trace["haspol0"] = bool(mdp["render"].get("has_init_policy"))
+        trace["injectedpol"] = any((inj or {}).get("policy") is not None for inj in (job.get("injects") or []))
+        if trace["haspol0"]:
+            sets = policy_sets(np.array(avecs, dtype=np.int64).reshape(mdp["na"], -1)[np.array(mdp["pol0"])], avecs)
+            trace["pol0"] = [s[0] for s in sets]
+        else:
+            trace["pol0"] = [1] * ns
     # ---- certificates (proposed here, verified by TLC)
     last = tr_events[-1]
     if job.get("cert") and complete and last["e"] == "end" and last["polok"]:
         pick0 = [a - 1 for a in last["pick"]]
         if kind in ("VI", "SAVI", "PI") and GN < GD and GN > 0:
             bound_num = 2 * GN if kind == "SAVI" else 2
-            c = discounted_cert(mdp, Fraction(GN, GD), pick0, E, den, eps_int, bound_num)
+            extra, evalat = None, 0
+            if kind == "PI":
+                sw = [k for k, e in enumerate(tr_events) if e["e"] == "sweep" and e["evals"]]
+                if sw:
+                    evalat = sw[-1] + 1
+                    extra = [a - 1 for a in tr_events[sw[-1]]["evals"][0]["pick"]]
+            c = discounted_cert(mdp, Fraction(GN, GD), pick0, E, den, eps_int, bound_num, extra)
             if c:
+                c["evalat"] = evalat
                 trace["cert"] = c
         elif kind in ("RVI", "PVI") and GN == GD:
             c = gain_cert(mdp, pick0, E, eps_int)
